@@ -148,21 +148,24 @@ func (t *XMPPTransport) Write(p []byte) (n int, err error) {
 }
 
 func (t *XMPPTransport) Close() error {
+	// Close ends the connection the transport holds now. The wait below can be long, and the transport is reused:
+	// by the time it is over, t.conn may be the connection of the next session, which must be left alone.
+	conn, closeChan := t.conn, t.closeChan
 	if t.readWriter != nil {
 		_, _ = t.readWriter.Write([]byte(stanza.StreamClose))
 	}
 
 	// Try to wait for the stream close tag from the server. After a timeout, disconnect anyway.
 	select {
-	case <-t.closeChan:
+	case <-closeChan:
 	case <-time.After(time.Duration(t.Config.ConnectTimeout) * time.Second):
 	}
 
 	if verifEnabled {
 		vpoint("transport.preclose")
 	}
-	if t.conn != nil {
-		return t.conn.Close()
+	if conn != nil {
+		return conn.Close()
 	}
 	return nil
 }
